@@ -405,6 +405,25 @@ def run(p, led, tier):
             led.fail("C02-R4", key, where(walker, walker.node), f"{len(badr)} case(s), e.g. {badr[0]}", witness="log(8, base=2) evaluates to 3.0; Python raises TypeError")
         elif nr:
             led.ok("C02-R4", key, where(walker, walker.node), f"{nr} (callable, exception, call shape) cases: one call, the exception is the result")
+        # an allow-listed name whose value is not callable (a constant): Python raises TypeError for `pi()`, so must the engine
+        consts = []
+        for e_ in table_entries(p, mito, "SAFE_FUNCTIONS"):
+            if not isinstance(e_.key, str) or e_.key in safe:
+                continue
+            vals = [r for r in W.paths(ast.Name(e_.key, ast.Load()))]
+            if vals and all(r["kind"] == "ok" and isinstance(r["value"], (int, float, str, bytes, type(None))) for r in vals):
+                consts.append(e_.key)
+        key = f"{walker.qual} ▸ Call ▸ calling an allow-listed constant raises"
+        badc = []
+        for cname in consts:
+            for shape, args_, kws_ in (("()", [], []), ("(a)", [C(a)], []), ("(a, kw=b)", [C(a)], [ast.keyword("kw", C(b))])):
+                for r in W.paths(ast.Call(ast.Name(cname, ast.Load()), args_, kws_)):
+                    if r["kind"] == "ok":
+                        badc.append(f"{cname}{shape} evaluates to {r['value']!r}; Python raises TypeError (the value is not callable)")
+        if badc:
+            led.fail("C02-R4", key, where(walker, walker.node), f"{len(badc)} case(s), e.g. {badc[0]}", witness="Mitochondria().metabolize('pi()') succeeds with 3.14159…; Python raises TypeError: 'float' object is not callable")
+        elif consts:
+            led.ok("C02-R4", key, where(walker, walker.node), f"{len(consts)} constant(s) {consts} × 3 call shapes: every path raises")
         key = f"{walker.qual} ▸ Call ▸ **mapping argument"
         rs = W.paths(ast.Call(ast.Name(safe[0], ast.Load()), [C(a)], [ast.keyword(None, C(b))]))
         badm = [r for r in rs if r["kind"] == "ok" and not (isinstance(r["value"], Unknown) and "b" in r["value"].sym)]
